@@ -19,8 +19,7 @@ fn bloom_new_establishes_inv() {
     assert!(nbits >= 512 && mask == nbits - 1 && (nbits & mask) == 0, "[C05.bloom] the bit set has a power-of-two number of bits (>= 512) and mask = bits - 1");
     assert!(shift == 64 - exp && nbits == 1u64 << exp, "[C05.bloom] shift = 64 - log2(bits)");
     assert!(shift >= 12 && shift < 64, "[C05.bloom] the hash split uses a shift in 12..64 (at most 2^52 bits)");
-    // NOT asserted: 1 <= locs < 2048.  It depends on the numerical accuracy of ln/ceil, which CBMC models
-    // nondeterministically; it is listed as an unchecked assumption of unit V-BLOOM/V-TLFU instead.
+    // the probe count is checked separately (bloom_new_probe_count) under an explicit, weak contract for `ln`
     let _ = locs;
     core::mem::forget(b);
 }
@@ -98,4 +97,31 @@ fn tinylfu_clone_is_identical_then_independent() {
     drop(c);
     assert!(t.estimate_hashed_key(h) <= 16, "[C16.independent][C03.uaf] the original stays usable after the clone is dropped");
     core::mem::forget(t);
+}
+
+
+/// Contract assumed for the natural logarithm (CBMC's own model of `log` is nondeterministic):
+/// for 0 < x < 1 the result is negative, not NaN, and not below ln(smallest positive f64) = -744.44...
+fn stub_ln(x: f64) -> f64 {
+    let r: f64 = kani::any();
+    kani::assume(!(x > 0.0 && x < 1.0) || (r < 0.0 && r >= -745.0));
+    r
+}
+
+// kind: proved (all entry counts 1..=2^32 and all ratios in (0,1), relative to the stated contract of `ln`)
+#[kani::proof]
+#[kani::unwind(66)]
+#[kani::stub(crate::polyfill::ln, stub_ln)]
+#[kani::solver(cadical)]
+fn bloom_new_probe_count() {
+    let entries: usize = kani::any();
+    let fp: f64 = kani::any();
+    kani::assume(entries >= 1 && entries <= (1usize << 32));
+    kani::assume(fp > 0.0 && fp < 1.0);
+    let b = crate::lfu::tinylfu::bloom::Bloom::new(entries, fp);
+    let (_nbits, _mask, shift, locs, _exp) = b.verif_config();
+    assert!(locs >= 1, "[C05.bloom][C11.locs] every ratio in (0,1) gives the doorkeeper at least one probe position (otherwise it would claim to contain every key)");
+    assert!(locs < 2048, "[C05.bloom][C11.locs] ... and fewer than 2048 (the probe arithmetic h + i*l cannot overflow)");
+    assert!(shift >= 12, "[C05.bloom] at most 2^52 bits");
+    core::mem::forget(b);
 }
